@@ -10,6 +10,7 @@ import (
 	"path/filepath"
 	"sort"
 	"strings"
+	"sync"
 	"time"
 
 	"github.com/git-lfs/git-lfs/v3/errors"
@@ -629,4 +630,147 @@ func verifOracleC15(cfg VerifCfg, obs *VerifObs) {
 		}
 	}
 	_ = calls
+}
+
+// ---------------------------------------------------------------------------------------------------
+// C14(b): schedules of the delay buffer.  infiniteTransferBuffer / readAvailable / pathnames are copied
+// verbatim from commands/command_filter_process.go of the working tree at check time (see prop.json
+// "extract") and run, rewritten like the rest of this package, with the real queue.  The main thread below
+// mirrors filterCommand's handling of delayed smudges and of list_available_blobs.
+
+// VerifDelayObs is what one delay-buffer execution observed.
+type VerifDelayObs struct {
+	Panic, Script string
+	Deadlock      bool
+	Horizon       bool
+	Blocked       []string
+	Rounds        [][]string // pathnames announced per list_available_blobs answer (before the final empty one)
+	Leftovers     []string   // paths announced together with the final (queue finished) answer
+	Succeeded     map[string]int
+	Finished      bool
+	Steps, Points int
+	Violations    []string
+	Errors        []string
+}
+
+func VerifRunDelay(cfg VerifCfg, ch VerifChooser) *VerifDelayObs {
+	obs := &VerifObs{Succeeded: map[string]int{}, NoAction: map[string]bool{}, BatchErr: map[string][]string{}}
+	e := &verifEnv{ch: ch, cfg: cfg, obs: obs, pinned: map[string]bool{}, open: map[string]int{}, lastAct: map[string]string{}}
+	for _, p := range strings.Split(cfg.NoEnv, ",") {
+		if p != "" {
+			e.pinned[p] = true
+		}
+	}
+	e.pinned["expiry"] = true
+	d := &VerifDelayObs{Succeeded: obs.Succeeded}
+	var q *TransferQueue
+	oidOf := map[string]string{}
+	out := vsched.Run(ch.Sched, vsched.Options{AllPoints: cfg.AllPoints, DelayBounded: !cfg.ContextBounded}, func() {
+		cli := verifClient()
+		m := &concreteManifest{
+			maxRetries:           cfg.MaxRetries,
+			maxRetryDelay:        defaultMaxRetryDelay,
+			concurrentTransfers:  cfg.Workers,
+			downloadAdapterFuncs: make(map[string]NewAdapterFunc),
+			uploadAdapterFuncs:   make(map[string]NewAdapterFunc),
+			apiClient:            cli,
+			batchClientAdapter:   &verifBatchClient{e: e},
+		}
+		m.RegisterNewAdapterFunc("basic", Download, func(name string, dd Direction) Adapter {
+			return newAdapterBase(nil, name, dd, &verifImpl{e: e})
+		})
+		// as in filterCommand, case "smudge" with the delay capability
+		closeOnce := new(sync.Once)
+		available := make(chan *Transfer)
+		q = NewTransferQueue(Download, m, "origin", WithBatchSize(cfg.BatchSize))
+		go infiniteTransferBuffer(q, available)
+		ptrs := map[string]bool{}
+		for i, name := range cfg.Adds {
+			// distinct paths; a lower-case letter re-uses the oid of the upper-case one (two files, same content)
+			path := fmt.Sprintf("p%d-%s", i, name)
+			oid := verifOid(name)
+			oidOf[path] = oid
+			q.Add(path, filepath.Join(cfg.Scratch, "present"), oid, 10, false, nil)
+			ptrs[path] = true
+		}
+		// as in filterCommand, case "list_available_blobs", repeated by Git until the answer is empty
+		for round := 0; round < 50; round++ {
+			closeOnce.Do(func() {
+				go q.Wait()
+			})
+			paths := pathnames(readAvailable(available, q.BatchSize()))
+			if len(paths) == 0 {
+				for p := range ptrs {
+					d.Leftovers = append(d.Leftovers, p)
+				}
+				sort.Strings(d.Leftovers)
+				d.Finished = true
+				return
+			}
+			var names []string
+			for _, p := range paths {
+				n := strings.TrimPrefix(p, "pathname=")
+				names = append(names, n)
+				// Git now retrieves the blob with a smudge request: the path is forgotten
+				delete(ptrs, n)
+			}
+			d.Rounds = append(d.Rounds, names)
+		}
+	})
+	d.Panic, d.Deadlock, d.Horizon, d.Blocked, d.Steps, d.Points = out.Panic, out.Deadlock, out.Horizon, out.Blocked, out.Steps, out.Points
+	if strings.Contains(out.Panic, "divergence while replaying") || strings.Contains(out.Panic, "out-of-range choice") {
+		panic(out.Panic)
+	}
+	if out.Panic != "" {
+		d.Panic = out.Panic + "\n" + verifTrimStack(out.PanicStack)
+	}
+	if q != nil {
+		for _, err := range q.errors {
+			d.Errors = append(d.Errors, err.Error())
+		}
+	}
+	d.Script = strings.Join(obs.EnvTrace, " ")
+	cause := verifCause(obs)
+	v := func(fp, msg string) { d.Violations = append(d.Violations, fp+"|"+msg) }
+	switch {
+	case d.Panic != "":
+		v("C14:delay-panic:"+verifPanicClass(d.Panic)+":"+cause, "the delay buffer / queue panicked: "+d.Panic)
+	case d.Horizon:
+		v("C14:delay-livelock:"+cause, "step horizon hit")
+	case d.Deadlock || !d.Finished:
+		v("C14:delay-never-completes:"+cause, "list_available_blobs never reached the empty answer; blocked: "+strings.Join(d.Blocked, "; "))
+	default:
+		seen := map[string]int{}
+		for _, r := range d.Rounds {
+			for _, n := range r {
+				seen[n]++
+			}
+		}
+		for i, name := range cfg.Adds {
+			path := fmt.Sprintf("p%d-%s", i, name)
+			ok := obs.Succeeded[oidOf[path]] > 0
+			left := false
+			for _, l := range d.Leftovers {
+				if l == path {
+					left = true
+				}
+			}
+			total := seen[path]
+			if left {
+				total++
+			}
+			if total != 1 {
+				v("C14:delay-announced-"+fmt.Sprint(total)+"-times:"+cause, fmt.Sprintf("delayed path %s was announced as available %d times (rounds %v, leftovers %v); must be exactly once", path, total, d.Rounds, d.Leftovers))
+			}
+			if seen[path] > 0 && !ok {
+				v("C14:delay-announced-untransferred:"+cause, fmt.Sprintf("path %s was announced from the queue although its object was never transferred", path))
+			}
+		}
+		for n := range seen {
+			if _, known := oidOf[n]; !known {
+				v("C14:delay-announced-unknown:"+cause, "a path that was never delayed was announced: "+n)
+			}
+		}
+	}
+	return d
 }
